@@ -558,6 +558,10 @@ pub fn generate(g: &GenCtx, seed: u64) -> Scenario {
             for st in t.steps.iter_mut() {
                 if rng.pct(10) {
                     st.clock_jump_ms = (10f64.powf(rng.uniform(0.0, 9.4))) as u64;
+                    // now and then a leap of years (absolute dates: 2038, a leap day, a new year)
+                    if st.clock_jump_ms % 32 == 7 {
+                        st.clock_jump_ms = (1 + st.clock_jump_ms % 25) * 365 * 86_400_000 + st.clock_jump_ms;
+                    }
                 }
             }
         }
